@@ -929,8 +929,7 @@ class _Simu(_IObserver, _params.Updatable, ABC):
 
         list_mesh: list[Mesh] = []
         for mesh in self.__listMesh:
-            if isinstance(mesh, str):
-                mesh = Load_Mesh(Folder.Join(self.folder, mesh))
+            mesh = self.__Get_mesh_from_history(mesh)
             list_mesh.append(mesh._Gather())
 
         if MPI_RANK == 0:
@@ -950,6 +949,17 @@ class _Simu(_IObserver, _params.Updatable, ABC):
         """simulation's dimension"""
         return self.__dim
 
+    def __Get_mesh_from_history(self, mesh: Union[str, Mesh]) -> Mesh:
+        """Returns an entry of the mesh history as a Mesh.
+
+        `Save` replaces the meshes by paths relative to the folder it wrote them in. That folder
+        is recorded then, because `self.folder` can be changed afterwards.
+        """
+        if isinstance(mesh, str):
+            folder = getattr(self, "_Simu__folderMeshes", self.folder)
+            mesh = Load_Mesh(Folder.Join(folder, mesh))
+        return mesh
+
     def __Update_mesh(self, index: int) -> None:
         """Updates the mesh for the specified iteration.
 
@@ -959,10 +969,7 @@ class _Simu(_IObserver, _params.Updatable, ABC):
             The mesh index in self.__listMesh.
         """
 
-        mesh = self.__listMesh[index]
-
-        if isinstance(mesh, str):
-            mesh = Load_Mesh(Folder.Join(self.folder, mesh))
+        mesh = self.__Get_mesh_from_history(self.__listMesh[index])
 
         self.__mesh = mesh
 
@@ -3185,11 +3192,11 @@ class _Simu(_IObserver, _params.Updatable, ABC):
         folder_meshes = Folder.Join(folder, "Meshes")
         list_mesh = []
         for i, mesh in enumerate(self.__listMesh):
-            if isinstance(mesh, str):
-                mesh = Load_Mesh(Folder.Join(folder, mesh))
+            mesh = self.__Get_mesh_from_history(mesh)
             path = mesh.Save(folder_meshes, f"mesh{i}")
             list_mesh.append(Folder.os.path.relpath(path, folder))
         self.__listMesh = list_mesh
+        self.__folderMeshes = folder
 
         # Save simulation
         with open(path_simu, "wb") as file:
